@@ -260,3 +260,14 @@ package semantic
 //@   loop 4 invariant err == nil && globals != nil && mapOK(globals, t, len(t.Typedefs), len(t.Constants), nSL(t), $i)
 //@   loop 4 invariant dT(t, len(t.Typedefs)) && dC(t, len(t.Constants)) && xTC(t, len(t.Typedefs), len(t.Constants)) && dS(t, nSL(t)) && xTS(t, len(t.Typedefs), nSL(t)) && xCS(t, len(t.Constants), nSL(t))
 //@   loop 4 invariant dV(t, $i) && xTV(t, len(t.Typedefs), $i) && xCV(t, len(t.Constants), $i) && xSV(t, nSL(t), $i)
+
+// Entry points as seen by the driver: assumed (CheckAll walks the include graph with a generic DFS iterator, ResolveSymbols
+// uses closures over ForEach* helpers with panic/recover; their parts are under contract above).
+//@ func ResolveSymbols(ast *parser.Thrift) error
+//@   trusted
+//@   modifies *
+//@ func NewChecker(opt Options) Checker
+//@   trusted
+//@   ensures result != nil
+//@ extern (Checker) CheckAll
+//@   modifies *
